@@ -472,7 +472,7 @@ impl Prop for C07 {
             ),
             assumptions: vec![
                 "channel arity is fixed at 3 (WasmDspRuntime keeps its construction-time io_channels across swaps)".into(),
-                "WASM payload preparation mirrors the CLI's private helpers (copied)".into(),
+                "swaps go through mimium-cli's real file runner (hook H6); on WASM the module bytes are compiled in-process instead of by the CLI's compiler subprocess".into(),
                 "quick tier runs the WASM histories for every 11th case".into(),
             ],
             bounds: json!({"steps": t, "swap_times": st, "edits_per_history": 1, "voices": VOICES.len(), "slots": M}),
